@@ -22,14 +22,38 @@ Definition not_sid_form (w : list N) : Prop :=
   | _ => True
   end.
 
+Lemma forallb_dec_digit ds : Forall (fun c => is_dec_b c = true) ds -> forallb dec_digit_b ds = true.
+Proof. intros H. apply forallb_forall. rewrite Forall_forall in H. exact H. Qed.
+Lemma forallb_dec_digit_not ds : Exists (fun c => is_dec_b c = false) ds -> forallb dec_digit_b ds = false.
+Proof.
+  intros H. destruct (forallb dec_digit_b ds) eqn:E; [|reflexivity].
+  rewrite forallb_forall in E. apply Exists_exists in H. destruct H as (c & Hc & Hb).
+  specialize (E c Hc). unfold dec_digit_b in E. unfold is_dec_b in Hb. congruence.
+Qed.
+
 Lemma symbol_identifier_sid w n :
   sid_spells w n -> (n <= 9223372036854775807)%N -> symbol_identifier w = Some (Z.of_N n).
 Proof.
   intros (ds & -> & Hn & Hd & <-) Hr. unfold symbol_identifier.
   destruct ds as [|d ds']; [contradiction|].
   pose proof (go_signed_val_spec 10 false (d :: ds') Hn (Forall_digit_in _ _ _ dec_digit_in Hd)) as G.
-  cbn [sign_bytes app sgn] in G. rewrite G.
+  cbn [sign_bytes app sgn] in G. rewrite (forallb_dec_digit _ Hd), G.
   replace (in_int64 (Z.of_N (digits_value 10 (d :: ds')))) with true by (unfold in_int64; lia). reflexivity.
+Qed.
+(* `$` digits whose number does not fit an int64: not an identifier for symbolIdentifier,
+   and recognised as an out-of-range ID by newSymbolToken *)
+Lemma symbol_identifier_sid_big w n :
+  sid_spells w n -> (9223372036854775807 < n)%N ->
+  symbol_identifier w = None /\ symbol_id_out_of_range w = true.
+Proof.
+  intros (ds & -> & Hn & Hd & <-) Hr.
+  assert (E : symbol_identifier (36%N :: ds) = None).
+  { unfold symbol_identifier. destruct ds as [|d ds']; [contradiction|].
+    pose proof (go_signed_val_spec 10 false (d :: ds') Hn (Forall_digit_in _ _ _ dec_digit_in Hd)) as G.
+    cbn [sign_bytes app sgn] in G. rewrite (forallb_dec_digit _ Hd), G.
+    replace (in_int64 (Z.of_N (digits_value 10 (d :: ds')))) with false by (unfold in_int64; lia). reflexivity. }
+  split; [exact E|]. unfold symbol_id_out_of_range. rewrite E.
+  destruct ds as [|d ds']; [contradiction|]. rewrite (forallb_dec_digit _ Hd). reflexivity.
 Qed.
 
 (* once the fold of ParseInt has failed it stays failed *)
@@ -66,12 +90,17 @@ Proof.
   destruct (N.eq_dec c 36) as [->|Hc36].
   - cbn [not_sid_form] in Hn. destruct r as [|d ds]; [reflexivity|].
     destruct Hn as [Hn|Hn]; [discriminate|].
-    inversion Hr as [|? ? Hd _]; subst.
-    assert (d <> 45%N /\ d <> 43%N) as [H45 H43].
-    { unfold id_part, id_start, letter, digit in Hd. lia. }
-    rewrite go_signed_val_nosign by assumption. unfold go_digits_val.
-    rewrite go_digits_val_bad by exact Hn. reflexivity.
+    rewrite (forallb_dec_digit_not _ Hn). reflexivity.
   - destruct c as [|q]; [reflexivity|]. do 6 (try (destruct q as [q|q|]; try reflexivity)). congruence.
+Qed.
+Lemma out_of_range_text w : not_sid_form w -> symbol_id_out_of_range w = false.
+Proof.
+  intros Hn. unfold symbol_id_out_of_range.
+  destruct w as [|c r]; [reflexivity|].
+  destruct c as [|q]; [reflexivity|]. do 6 (try (destruct q as [q|q|]; try reflexivity)).
+  cbn [not_sid_form] in Hn. destruct r as [|d ds]; [reflexivity|].
+  destruct Hn as [Hn|Hn]; [discriminate|].
+  rewrite (forallb_dec_digit_not _ Hn). reflexivity.
 Qed.
 
 Theorem new_symbol_token_sid l w n :
@@ -83,7 +112,16 @@ Proof.
 Qed.
 Theorem new_symbol_token_text l w :
   ident_chars w -> not_sid_form w -> new_symbol_token l w = Ok (name_symbol_token l w).
-Proof. intros Hw Hn. unfold new_symbol_token. now rewrite (symbol_identifier_text w Hw Hn). Qed.
+Proof.
+  intros Hw Hn. unfold new_symbol_token. now rewrite (symbol_identifier_text w Hw Hn), (out_of_range_text w Hn).
+Qed.
+(* `$` digits beyond 2^63-1: an undefined symbol ID, whatever the table *)
+Theorem new_symbol_token_sid_out_of_range l w n :
+  sid_spells w n -> (9223372036854775807 < n)%N -> new_symbol_token l w = Err.
+Proof.
+  intros Hw Hr. unfold new_symbol_token.
+  destruct (symbol_identifier_sid_big w n Hw Hr) as [-> ->]. reflexivity.
+Qed.
 
 (* in the system symbol table *)
 Lemma tok_by_sid_sys n : (n <= 9)%N ->
@@ -97,6 +135,10 @@ Example sid_example : sid_spells (s "$007") 7.
 Proof. exists (s "007"). repeat split; [discriminate|repeat constructor]. Qed.
 Example sid_example_tok : new_symbol_token LSys (s "$007") = Ok {| tk_text := Some (s "symbols"); tk_sid := 7 |}.
 Proof. rewrite (new_symbol_token_sid LSys _ 7 sid_example) by lia. reflexivity. Qed.
+Example sid_example_big : sid_spells (s "$9223372036854775808") 9223372036854775808.
+Proof. exists (s "9223372036854775808"). repeat split; [discriminate|repeat constructor]. Qed.
+Example sid_example_big_tok : new_symbol_token LSys (s "$9223372036854775808") = Err.
+Proof. apply (new_symbol_token_sid_out_of_range LSys _ _ sid_example_big). lia. Qed.
 Example text_example_tok :
   new_symbol_token LSys (s "$ion_9z") = Ok {| tk_text := Some (s "$ion_9z"); tk_sid := -1 |}.
 Proof.
